@@ -1,13 +1,10 @@
 #!/bin/bash
-# usage: tools/bn.sh <benign-name> <PID...>  — scratch copy /tmp/bnw/<name> of /repo + benign patch, run the checks, show violations in full
 N=$1; shift
 W=/tmp/bnw/$N
 mkdir -p /tmp/bnw
-rm -rf "$W"; mkdir -p "$W"
-rsync -a --exclude target --exclude .git /repo/ "$W/repo/"
-patch -p1 -s --no-backup-if-mismatch -d "$W/repo" -i /verif/benign/$N/patch.diff || exit 3
+if [ ! -d "$W/repo" ]; then mkdir -p "$W"; rsync -a --exclude target --exclude .git /repo/ "$W/repo/"; patch -p1 -s --no-backup-if-mismatch -d "$W/repo" -i /verif/benign/$N/patch.diff || exit 3; fi
 for P in "$@"; do
-  VERIF_REPO=$W/repo VERIF_EVIDENCE_DIR=$W/ev /verif/check $P > $W/$P.out 2>&1
+  VERIF_REPO=$W/repo VERIF_EVIDENCE_DIR=$W/ev /tmp/stage2/check $P > $W/$P.out 2>&1
   echo "== $N $P rc=$?"
   grep -A3 -E "^  [RO][0-9.]+ |Traceback|Error" $W/$P.out | cut -c1-700 | head -${LINES_MAX:-40}
 done
